@@ -370,3 +370,10 @@ Definition chk_explode_maxcount (h : hist Qc) (lim : option rawlimit) (infv : op
   cres_code cnt_eqb
     (explode VO Vzero vadd FUEL h maxcount_pred lim qzero
              (fun o => match infv with Some v => Some (v * o)%Qc | None => None end)) expected.
+(* a callback that calls the deprecated, context-free P.foreach / H.foreach and returns its result *)
+Definition ret_of_res {St} (r : res (hist Qc)) : ret (T:=Qc) (St:=St) :=
+  match r with Ok h => RHist h | Err e => RRaise e end.
+Definition dep_foreach {St} (pools : list (list (hist Qc))) (tbl : list (list (list Qc) * val (T:=Qc))) : ret (T:=Qc) (St:=St) :=
+  ret_of_res (p_foreach VO Vzero (map (mkP VO) pools)
+       (fun rs => match find (fun e => results_eqb (fst e) rs) tbl with
+                  | Some e => Ok (snd e) | None => Ok (VOut (qc 0 1)) end)).
